@@ -236,11 +236,27 @@ def classify(c):
         if xs and max(xs) >= 1e103:
             return "incompletegamma-hangs-for-huge-x"
     # (4) `math.Abs(x) < DBL_MIN` returns 0 for subnormal x although x^alpha/Gamma(alpha+1) is not small when alpha is tiny
-    if c.op == "c20incg" and cl <= {"series-value"}:
+    if c.op == "c20incg" and cl == {"series-value"}:
         a = _floats(c.args[0])[0]
         xs = _floats(c.args[1])
         if a < 0.02 and any(0 < x < 2.2250738585072014e-308 for x in xs):
             return "incompletegamma-subnormal-x-returns-zero"
+    # (6) the value drops by < 1e-7 where the code switches from the series (truncated at 1e-8) to the continued fraction
+    if c.op == "c20incg" and cl == {"monotone"} and (c.impl or "").startswith("ok "):
+        a = _floats(c.args[0])[0]
+        xs = _floats(c.args[1])
+        try:
+            vs = [_fl(t) for t in c.impl.split(" ")[3:]]
+        except (ValueError, IndexError, struct.error):
+            return None
+        if len(vs) != len(xs):
+            return None
+
+        def cf(x):
+            return x > 1 and x >= a
+        drops = [(xs[i], xs[i + 1], vs[i] - vs[i + 1]) for i in range(len(vs) - 1) if vs[i] - vs[i + 1] > 1e-12]
+        if drops and all((not cf(x0)) and cf(x1) and d <= 1e-7 for x0, x1, d in drops):
+            return "incompletegamma-not-monotone-across-branch-switch"
     # (5) gonum's Quantile is inaccurate / not monotone for tiny shapes: negative or non-monotone categories
     if c.op == "c20dgamma" and "ext-quantile" in cl and cl <= {"ext-quantile", "non-decreasing", "negative-rate"}:
         if _floats(c.args[0])[0] < 0.1:
